@@ -73,10 +73,13 @@ PROPS["C13"] = {
     "trusted_base": [
         KERNEL, HARNESS,
         "statements in lean/Ogen/Props/C13.lean; model IntRT (digit loop of FormatInt/FormatUint, syntax+range of ParseInt/ParseUint, FormatBool/ParseBool) hand-written from strconv's documented behaviour; tie = line-by-line comparison with conv.Int64ToString/Uint64ToString and conv.ToInt*/ToUint* (all widths) on boundary/random values and hostile strings",
-        "NOT proved (standard-library contracts, exercised on the implementation only): ParseFloat∘FormatFloat(-1, bits), time.Parse∘Format for the date/time/date-time layouts, time.ParseDuration∘Duration.String and ogen's formatDuration port, uuid.Parse∘String and ogen's hexEncode, netip/MAC/url round trips, Unix timestamp arithmetic",
+        "model UnixT (time.Unix normalisation, UnixMilli/UnixMicro with Go's truncating / and %, the four accessors) hand-written; tie = conv.ToUnix*/Unix*ToString on boundary and random int64 values compared line by line ((sec, nsec) of the parsed instant and the text it prints back)",
+        "the fact translator harness/cmd/extract: Ogen/Generated/Facts_float.lean (verb, precision, bit size and value type of every FormatFloat/AppendFloat call in conv and json) regenerated on every run; float_spec_ok is stated over it",
+        "generated code: one query and one header parameter per declared format through a regenerated client and server — the text on the wire is compared with the text the format prescribes (computed with the standard library in the harness), the value that arrives with the value sent",
+        "NOT proved (standard-library contracts, exercised on the implementation only): ParseFloat∘FormatFloat(-1, bits), time.Parse∘Format for the date/time/date-time layouts, time.ParseDuration∘Duration.String and ogen's formatDuration port, uuid.Parse∘String and ogen's hexEncode, netip/MAC/url round trips",
     ],
     "assumptions": ["non-finite floats are outside the domain", "date-time/time resolution is one second (the layouts carry no fraction); years 0–9999"],
-    "level_text": "partial: uint_rt/int_rt (every value of every width, parametric in the bit size), int_syntax and bool_rt are Lean theorems about a model of strconv tied to the code differentially; every other helper pair (floats, durations, times, Unix units, UUID, IP, MAC, URL; conv and json) is checked on the implementation only — exhaustive for 8/16-bit integers and booleans, boundary + random elsewhere — because it rests on stdlib contracts the model does not contain",
+    "level_text": "partial: uint_rt/int_rt (every value of every width, parametric in the bit size), int_syntax, bool_rt, unix_text_value_text / unix_value_text_value / unix_exact (all four units, negative instants included) are Lean theorems about models tied to the code differentially; float_spec_ok is a theorem over facts regenerated from the source (shortest-round-trip formatting is what every float helper asks strconv for); every other helper pair (floats, durations, times, UUID, IP, MAC, URL; conv and json) is checked on the implementation only — exhaustive for 8/16-bit integers and booleans, boundary + random elsewhere — because it rests on stdlib contracts the model does not contain",
     "level_note": "trusted: Lean kernel, statements, model of strconv integer/boolean text + its differential tie, the Go harness; stdlib float/time/uuid/netip/url contracts are assumptions tested on every run, not theorems.",
     "technique": "Lean 4 round-trip theorems for integer/boolean text, parametric in the width; differential tie to conv; implementation-only exhaustive/random round trips for stdlib-backed formats",
 }
@@ -107,7 +110,8 @@ PROPS["C09"] = {
     "trusted_base": [
         KERNEL, HARNESS, GENCHECK,
         "statements in lean/Ogen/Props/C09.lean (AltAccepted, Outcome) and the model Sec.* (SecurityMask_proof, SecurityHandler_proof), hand-written from internal/bitset, gen/gen_security.go and the security block of gen/_template/handlers.tmpl",
-        "tie = (a) the IR's requirement masks of every generated operation compared with the model's maskOf and the scheme index assignment compared with first-occurrence order, (b) regenerated, compiled servers with a scripted SecurityHandler: handler-invoked/401 compared with secDecide for all 4^n outcome vectors (n ≤ 4) and random vectors up to 20 schemes, incl. global requirement, operation-level override and `security: []`",
+        "tie = (a) the IR's requirement masks of every generated operation compared with the model's maskOf and the scheme index assignment compared with first-occurrence order, (b) regenerated, compiled servers with a scripted SecurityHandler: handler-invoked/401 compared with secDecide for all 4^n outcome vectors (n ≤ 4) and random vectors up to 20 schemes, incl. global requirement, operation-level override and `security: []`, with and without a shared default error response (convenient errors route the failure through NewError); exactly one response per request",
+        "the fact translator harness/cmd/extract (text level): Ogen/Generated/Facts_tmpl.lean — the bit-set statements of handlers.tmpl; facts_mask_statements is stated over it",
         "credential extraction per scheme kind (apiKey header/query/cookie, basic, bearer, oauth2+scopes) is NOT modelled: SecuritySource → SecurityHandler equality is checked on the implementation through the generated client over a real HTTP round trip",
     ],
     "assumptions": ["scheme outcomes are what the user's SecurityHandler returns; 'presented credentials' = the header/query/cookie is present"],
@@ -156,6 +160,8 @@ PROPS["C15"] = {
     "trusted_base": [
         KERNEL, HARNESS, GENCHECK,
         "statements in lean/Ogen/Props/C15.lean; model Stages.handle hand-written from gen/_template/handlers.tmpl and ogenerrors/handler.go; tie = requests that fail at a chosen stage (and every handler outcome) sent to a regenerated server, (status, handler-invoked) compared with the model line by line",
+        "the fact translator harness/cmd/extract (text level): Ogen/Generated/Facts_tmpl.lean — order of the stage markers in handlers.tmpl, the number of `return` statements after each failing stage, the optional-body shortcut of request_decode.tmpl; facts_stage_order and facts_optional_body are stated over it",
+        "further regenerated servers: conjunctive and alternative security requirements, an optional request body with missing / wrong content types, parameter shapes without serialization (must be refused by the generator; a server generated anyway is driven), stage failures with convenient errors active",
         "NOT proved: that the decoders themselves never panic on arbitrary bytes (jx, net/http, generated decoders) — checked on the implementation with byte-level mutations of valid requests, hand-built *http.Request values that bypass URL validation and random bodies; the over-acceptance oracle of that stream is a hand-written reference for one operation",
     ],
     "assumptions": ["the query parameter stage sees net/url's parsed multimap (malformed pairs already dropped: known finding K9)"],
@@ -235,8 +241,9 @@ PROPS["C08"] = {
     "trusted_base": [
         KERNEL, HARNESS,
         "the fact translator harness/cmd/extract: Ogen/Generated/Facts_regex.lean (whitespaceChars, re2Dot, the [] / [^] replacement literals of scanBracket) regenerated from ogenregex/convert.go on every run; facts_whitespace, facts_dot, facts_any_class, facts_empty_class are stated over it",
-        "statements in lean/Ogen/Props/C08.lean; the ECMA-262 side (ecmaDenote: WhiteSpace = TAB VT FF ZWNBSP + category Zs of Unicode 15, LineTerminator, ASCII \\d \\w, code-point `.`) and the RE2 side (re2Denote) are written by hand from the two specifications; Go's regexp atom semantics are modelled, not verified — tied by running every emitted atom against a code-point grid (all scalar values in the thorough tier)",
+        "statements in lean/Ogen/Props/C08.lean; the ECMA-262 side (ecmaDenote: WhiteSpace = TAB VT FF ZWNBSP + category Zs of Unicode 15, LineTerminator, ASCII \\d \\w, code-point `.`) and the RE2 side (re2Denote) are written by hand from the two specifications; Go's regexp atom semantics are modelled, not verified — tied by running every emitted atom against a code-point grid (thorough tier: every code point of planes 0–2 and every 16th above)",
         "model Conv.convert hand-written from ogenregex/convert.go; tie = output text compared with the real Convert on random token sequences incl. malformed ones; end-to-end tie = ogenregex.Compile(p).MatchString(s) compared with accepts (ecmaDenote e) s on every subject of length ≤ L over a 17-symbol alphabet; regexp2 is a second opinion in the failing-input search only where it is itself ECMA-262",
+        "further ties on the implementation: denotation of every \\cX and legacy octal escape; engine agreement (a pattern of the sub-fragment both engines implement faithfully, forced onto regexp2 by a look-around that cannot fail, answers as its converted form); generated validators (a regenerated server accepts a string member exactly when ogenregex.Compile(pattern).MatchString does, incl. patterns that look like match-all and subjects with line terminators)",
         "NOT proved: syntax commutation for groups, classes with ranges, bounded repetition and look-ahead escapes; the fallback decision is checked on the implementation",
     ],
     "assumptions": ["no flags; Unicode 15 Zs set", "quantified assertions (`^*`) are outside the portable grammar"],
@@ -252,7 +259,7 @@ PROPS["C11"] = {
     "trusted_base": [
         KERNEL, HARNESS,
         "statements in lean/Ogen/Props/C11.lean; the models of C12 (path keys), C07 (reference resolution) and C16 (JSON Pointer) with their own ties (the suites of those properties; this check re-runs none of them)",
-        "NOT modelled and decided on the implementation only: every other part of parser and generator, bounded time/memory, the line:column clause. The mutation sweep (single-fault structural mutations of corpus specs, truncations, random bytes, 100- and 1000-deep nesting) runs ogen.Parse + gen.NewGenerator + WriteSource in memory under recover and a 30 s watchdog",
+        "NOT modelled and decided on the implementation only: every other part of parser and generator, bounded time/memory, the line:column clause beyond the scenarios named below. The mutation sweep (single-fault structural mutations of corpus specs, truncations, random bytes, 100- and 1000-deep nesting) runs ogen.Parse + gen.NewGenerator + WriteSource in memory under recover and a 30 s watchdog, in child processes of the harness (a Go fatal error such as a stack overflow cannot be recovered: the child dies, the document gets the outcome `fatal`, a new child is started); further streams: random oneOf/anyOf/allOf graphs with inline hops, `$ref`s one past the end of an array, located-diagnostic scenarios over two files (the position an error names must lie inside the file it names, at the faulty node)",
     ],
     "assumptions": ["a hung generation is detected by a watchdog, not interrupted"],
     "level_text": "partial (modelled components only): path_key_total, ref_cycles_error, ref_depth_error, pointer_total are Lean theorems (totality is also built into the definitions: Lean accepts only terminating functions, Go panics are explicit outcomes). Totality of the rest of the generator is a mutation sweep over the corpus on every run, not a theorem.",
